@@ -528,3 +528,21 @@ Section A64.
         rewrite nth_error_map, Hj. reflexivity.
   Qed.
 End A64.
+
+(* ---- encodability of the x86-64 patch ---- *)
+Lemma x64_encodable_iff : forall cv callee args adj,
+  forallb encodable_x64 (call_x86 8 cv callee args adj) = forallb arg_fits_x64 (passed_args (cregs cv) args).
+Proof.
+  intros cv callee args adj. unfold call_x86.
+  set (pa := passed_args (cregs cv) args).
+  rewrite !forallb_app.
+  assert (Hm : forallb encodable_x64 (map (fun p : argv * option nat => match p with
+                | (AInt v, Some r) => MovImm r v | (ASym s, Some r) => MovMem r s
+                | (AInt v, None) => PushImm v | (ASym s, None) => PushMem s end) (rev pa)) = forallb arg_fits_x64 pa).
+  { rewrite <- (rev_involutive pa) at 2. generalize (rev pa) as l. intros l.
+    induction l as [|[a o] l IH]; [reflexivity|].
+    cbn [map forallb rev]. rewrite forallb_app, IH. cbn [forallb]. rewrite andb_true_r, andb_comm.
+    f_equal. destruct a, o; reflexivity. }
+  rewrite Hm.
+  repeat match goal with |- context [if ?c then _ else _] => destruct c end; cbn [forallb encodable_x64]; rewrite ?andb_true_r; reflexivity.
+Qed.
